@@ -991,16 +991,18 @@ PROPS["C14"] = dict(
                  ("Tmcg.C14.non_vacuous", "full"), ("Tmcg.C14.digest_zero_breaks_agreement", "full"),
                  ("Tmcg.C14.delivery_spec", "full"), ("Tmcg.C14.delivery_spec_fails_with_skip", "full"),
                  ("Tmcg.C14.fifo_order", "full"), ("Tmcg.C14.deliver_keeps_channel", "full"),
-                 ("Tmcg.C14.deliverFrom_isolation", "full"), ("Tmcg.C14.unset_restores", "full")],
+                 ("Tmcg.C14.deliverFrom_isolation", "full"), ("Tmcg.C14.unset_restores", "full"),
+                 ("Tmcg.C14.validity", "full"), ("Tmcg.C14.totality", "full"),
+                 ("Tmcg.C14.validity_first_formulation_false", "full"), ("Tmcg.C14.validity_non_vacuous", "full")],
     predicate=pred_c14,
     level_text="Invariant proofs in Lean 4 over a model of Deliver/Broadcast/DeliverFrom/setID/unsetID (every branch of the C++ event loop) composed into an n-party system with arbitrary message "
                "scheduling and arbitrary messages on the links of up to t<n/3 Byzantine parties: agreement, integrity, no duplication (FIFO on and off) for every reachable state; per-party theorems for FIFO order, "
                "channel isolation of Deliver and DeliverFrom, nested channel restore. Correspondence: the real class stepped one Deliver call at a time over an in-memory link layer (n=2..7, Byzantine catalogue, "
                "held/duplicated/out-of-order messages, channel switching), full internal state compared with the model after every call. "
-               "Partial: liveness (validity, totality after all messages are handed over) is checked on the real implementation by the run predicate only, not proved in Lean.",
+               "Liveness: in every settled run in which all messages between honest parties were consumed, every honest broadcast is delivered by all honest parties (validity) and a slot delivered by one honest party is delivered by all (totality, also for Byzantine senders) — proved for the system model; the same is checked on drained runs of the real class by the predicate.",
     level_note=LEVEL_NOTE + " The digest function is a parameter: injective and never 0 (machine-checked counterexample without the second assumption).",
     assumptions=["digest function injective (collision resistance idealised) and H(m) != 0",
-                 "partial: validity/totality (liveness) not proved in Lean; checked by predicate on drained runs of the real implementation",
+                 "validity needs a well-formed broadcast: digest within the length check of the handlers; without FIFO order a positive, not reused sequence number (machine-checked counterexamples otherwise); liveness is about one channel without DeliverFrom / channel switching",
                  "FIFO-order and delivery-spec theorems assume fifo_skip = 0 (the default); with the skip heuristic on, slots are dropped by design"],
 )
 
@@ -1296,20 +1298,36 @@ PROPS["C16"] = dict(
     level_note=LEVEL_NOTE + " The hash of the Schnorr verifier is an oracle parameter (answers logged from tmcg_mpz_shash).",
     assumptions=["partial: CGJKR DSS threshold signing not modelled (its verifier is); NTS signing modelled on top of the synchronous DKG model"],
 )
+from pred_c17b import pred_c17b  # noqa: E402  (multi-party flip, judged on the real outputs)
+
+
+def pred_c17_all(line, st):
+    if line.startswith(("prop.jl.", "jl.")):
+        return pred_c17b(line, st)
+    return pred_c17(line, st)
+
+
 PROPS["C17"] = dict(
     module="TmcgProps.C17",
-    areas=[("coin", {"quick": 300, "thorough": 3000}, [], "san")],
+    areas=[("coin", {"quick": 300, "thorough": 3000}, [], "san"),
+           ("jl", {"quick": 24, "thorough": 60}, ["--par", "4"], "san")],
     obligations=[("Tmcg.C17.flip2_agree", "full"), ("Tmcg.C17.commit_before_reveal", "full"),
                  ("Tmcg.C17.commitment_hides", "full"), ("Tmcg.C17.accept_iff", "full"),
-                 ("Tmcg.C17.bad_opening_rejected", "full"), ("Tmcg.C17.commitment_binds", "full")],
-    predicate=pred_c17,
+                 ("Tmcg.C17.bad_opening_rejected", "full"), ("Tmcg.C17.commitment_binds", "full"),
+                 ("Tmcg.C17.flip_agree", "full"), ("Tmcg.C17.flip_is_sum", "full"), ("Tmcg.C17.bad_opening_reconstructed", "full"),
+                 ("Tmcg.C17.reveal_after_commitments", "full"), ("Tmcg.C17.no_opening_before_resolve", "full"),
+                 ("Tmcg.C17.opening_only_in_round_4", "full"), ("Tmcg.C17.opening_is_committed_pair", "full"),
+                 ("Tmcg.C17.private_shares_after_commitments", "full")],
+    predicate=pred_c17_all,
     level_text="Theorems in Lean 4 about the two-party coin flip as an I/O automaton: both honest parties return the sum of the shares mod q for all coins; for every peer behaviour the own share is "
                "sent only after a group-member commitment of the peer was received (commit before reveal), the first message hides the share perfectly, a coin is returned iff the peer opened exactly "
                "its earlier commitment in range, and two different openings of one commitment give log_g h (binding). Correspondence: real Flip_twoparty in both roles against a scripted peer "
                "(honest, wrong opening, out-of-range, non-member commitment, withheld/unparsable lines) with the byte-level order of reads and writes recorded. "
-               "Partial: the multi-party flip over joint verifiable secret sharing (Flip with RVSS) is not modelled.",
+               "Multi-party flip over the joint verifiable secret sharing (n parties, up to t deviating, all deviation scripts): all honest parties return the same coin, it is the sum mod q of the committed shares of the qualified parties, "
+               "an opening that does not match the commitment is replaced by the reconstructed committed share, and no honest party opens before the sharing phase (all commitments delivered, complaints resolved) is over. "
+               "Correspondence: real Flip as n = 2..7 forked parties over pipes with the real reliable broadcast, 24 planned cases covering every deviation kind per run.",
     level_note=LEVEL_NOTE,
-    assumptions=["partial: multi-party variant (JareckiLysyanskayaEDCF::Flip over RVSS, n>2) not modelled",
+    assumptions=["multi-party part: synchronous-round abstraction (reliable broadcast as consistent per-sender FIFO), explicit binding hypothesis on the Pedersen commitments (BindingHyp), one Flip per channel identifier",
                  "binding is computational: reduction to the discrete logarithm of h to base g, not a probability bound"],
 )
 
